@@ -103,7 +103,13 @@ func (e *BaseParserError) FriendlyErrorMessage() string {
 	}
 	msg.WriteString("\n" + e.SourceCode() + "\n")
 	pad := strings.Repeat(" ", colStart-1)
-	msg.WriteString(pad + strings.Repeat("^", colEnd-colStart+1))
+	// A token that spans multiple lines ends in a column unrelated to its
+	// start column: underline at least the first character.
+	width := colEnd - colStart + 1
+	if width < 1 {
+		width = 1
+	}
+	msg.WriteString(pad + strings.Repeat("^", width))
 	return msg.String()
 }
 
